@@ -264,7 +264,7 @@ impl SimDisk {
         let p = self.scratch.join(format!("img-{}", st.img_counter));
         let desc = Self::build_power_image(&st.dirs[di], &p, pattern);
         for d in desc.split(',') { if let Some(k) = d.split(':').next() { if !k.is_empty() { Self::fire(&mut st, &format!("powerloss:{k}")); } } }
-        Self::fire(&mut st, "powerloss:image-after-return");
+        Self::fire(&mut st, &format!("powerloss:image-{site}"));
         let level = st.dirs[di].level;
         st.images.push(ImageRec { path: p, kind: ImageKind::Power, step, event: u64::MAX, site: site.to_string(), file: String::new(), level, desc });
     }
@@ -301,7 +301,7 @@ impl SimDisk {
         // directory operations: a prefix survives
         let keep_dirops = match mode { 0 => 0, 1 => d.dirops.len(), _ => rng.usize(d.dirops.len() + 1) };
         for (i, op) in d.dirops.iter().enumerate() {
-            if i >= keep_dirops { desc.push(format!("lost-dirop:{:?}", op)); continue; }
+            if i >= keep_dirops { desc.push(format!("lost-dirop:{}", match op { DirOp::Create(n, _) => format!("create {n}"), DirOp::Unlink(n) => format!("unlink {n}") })); continue; }
             match op {
                 DirOp::Create(name, uid) => {
                     let pend = d.durable.join(format!(".pending-{uid}"));
